@@ -43,6 +43,14 @@ func NewReport(p *Program) *Report { return &Report{prog: p, seen: map[string]in
 
 // Oblige records an obligation. construct must be a stable identifier.
 func (r *Report) Oblige(construct string, pos token.Pos, ok bool, detail string) {
+	if ok {
+		detail = "" // detail describes the failure
+	}
+	r.obligeW(construct, pos, ok, detail, "")
+}
+
+// ObligeInfo is Oblige with a neutral detail that is kept for discharged obligations too.
+func (r *Report) ObligeInfo(construct string, pos token.Pos, ok bool, detail string) {
 	r.obligeW(construct, pos, ok, detail, "")
 }
 
